@@ -286,6 +286,12 @@ func (e *Exec) libModel(st *State, callee *ssa.Function, cc *ssa.CallCommon, arg
 		e.store(st, args[0], nv)
 		set(Val{T: tBool, S: ok})
 		return true, true, nil
+	case "container/list.New", "(*container/list.List).Len", "(*container/list.List).PushFront", "(*container/list.List).PushBack",
+		"(*container/list.List).Back", "(*container/list.List).Front", "(*container/list.List).MoveToFront", "(*container/list.List).Remove":
+		if e.listModel(st, name, cc, args, resT, set) {
+			used()
+			return true, true, nil
+		}
 	case "(net.IP).String":
 		if e.mode != ModeBV {
 			used()
@@ -624,4 +630,97 @@ func (e *Exec) permuteSlice(st *State, sl string, et types.Type) {
 		and(e.le(off, qo), e.lt(qo, e.add(off, ln))), newArr, qo, oldArr, qo))
 	m = e.memGet(st, k, srt)
 	e.memSet(st, k, srt, fmt.Sprintf("(store %s (s-base %s) %s)", m, sl, newArr))
+}
+
+// container/list, abstractly: a list is its length (field len) and the set of elements whose
+// field `list` points to it; an element carries its Value. Order is not modelled.
+func (e *Exec) listModel(st *State, name string, cc *ssa.CallCommon, args []Val, resT types.Type, set func(Val)) bool {
+	var listT, elemT types.Type
+	find := func(t types.Type) {
+		if p, ok := t.Underlying().(*types.Pointer); ok {
+			if n, ok := p.Elem().(*types.Named); ok && n.Obj().Pkg() != nil && n.Obj().Pkg().Path() == "container/list" {
+				if n.Obj().Name() == "List" {
+					listT = n
+				} else if n.Obj().Name() == "Element" {
+					elemT = n
+				}
+			}
+		}
+	}
+	sig := cc.Signature()
+	if sig.Recv() != nil {
+		find(sig.Recv().Type())
+	}
+	for i := 0; i < sig.Params().Len(); i++ {
+		find(sig.Params().At(i).Type())
+	}
+	for i := 0; i < sig.Results().Len(); i++ {
+		find(sig.Results().At(i).Type())
+	}
+	if listT == nil {
+		return false
+	}
+	if elemT == nil {
+		elemT = listT.(*types.Named).Obj().Pkg().Scope().Lookup("Element").Type()
+	}
+	field := func(t types.Type, name string) int {
+		u := t.Underlying().(*types.Struct)
+		for i := 0; i < u.NumFields(); i++ {
+			if u.Field(i).Name() == name {
+				return i
+			}
+		}
+		return 0
+	}
+	lenK, lenS := e.heapKey(listT, field(listT, "len"))
+	valK, valS := e.heapKey(elemT, field(elemT, "Value"))
+	ownK, ownS := e.heapKey(elemT, field(elemT, "list"))
+	getLen := func(l string) string { return fmt.Sprintf("(select %s %s)", e.memGet(st, lenK, lenS), l) }
+	setLen := func(l, v string) {
+		e.memSet(st, lenK, lenS, fmt.Sprintf("(store %s %s %s)", e.memGet(st, lenK, lenS), l, v))
+	}
+	one := e.sc.idxLit(1)
+	z := e.sc.idxLit(0)
+	switch name {
+	case "container/list.New":
+		ref := e.allocRef(st)
+		setLen(ref, z)
+		set(Val{T: resT, S: ref})
+	case "(*container/list.List).Len":
+		e.checkNonNil(st, args[0].S, "list", cc.Pos())
+		v := Val{T: resT, S: e.sc.define("listlen", e.sc.idx(), getLen(args[0].S))}
+		e.assume(st, and(e.le(z, v.S), e.le(v.S, e.sc.idxLit(maxLen))))
+		set(v)
+	case "(*container/list.List).PushFront", "(*container/list.List).PushBack":
+		e.checkNonNil(st, args[0].S, "list", cc.Pos())
+		ref := e.allocRef(st)
+		e.memSet(st, valK, valS, fmt.Sprintf("(store %s %s %s)", e.memGet(st, valK, valS), ref, args[1].S))
+		e.memSet(st, ownK, ownS, fmt.Sprintf("(store %s %s %s)", e.memGet(st, ownK, ownS), ref, args[0].S))
+		cur := getLen(args[0].S)
+		e.assume(st, and(e.le(z, cur), e.le(cur, e.sc.idxLit(maxLen))))
+		setLen(args[0].S, e.add(cur, one))
+		set(Val{T: resT, S: ref})
+	case "(*container/list.List).Back", "(*container/list.List).Front":
+		e.checkNonNil(st, args[0].S, "list", cc.Pos())
+		r := e.freshVal(st, "listelem", resT)
+		cur := getLen(args[0].S)
+		// nil iff the list is empty; otherwise an element of this list
+		e.assume(st, eq(eq(r.S, "0"), not(e.lt(z, cur))))
+		e.assume(st, imp(not(eq(r.S, "0")), eq(fmt.Sprintf("(select %s %s)", e.memGet(st, ownK, ownS), r.S), args[0].S)))
+		set(r)
+	case "(*container/list.List).MoveToFront":
+		e.checkNonNil(st, args[0].S, "list", cc.Pos())
+	case "(*container/list.List).Remove":
+		e.checkNonNil(st, args[0].S, "list", cc.Pos())
+		e.checkNonNil(st, args[1].S, "element", cc.Pos())
+		own := fmt.Sprintf("(select %s %s)", e.memGet(st, ownK, ownS), args[1].S)
+		mine := e.sc.define("listmine", "Bool", eq(own, args[0].S))
+		cur := getLen(args[0].S)
+		setLen(args[0].S, ite(mine, e.sub(cur, one), cur))
+		e.memSet(st, ownK, ownS, fmt.Sprintf("(store %s %s %s)", e.memGet(st, ownK, ownS), args[1].S, ite(mine, "0", own)))
+		set(Val{T: resT, S: e.sc.define("listval", "Iface", fmt.Sprintf("(select %s %s)", e.memGet(st, valK, valS), args[1].S))})
+	default:
+		return false
+	}
+	return true
 }
